@@ -397,30 +397,40 @@ func c27ExpiredWhy(d *ledgercore.AccountData, r basics.Round) string {
 	return ""
 }
 
-// absentWhy: "" if an entry for this account in the absent list is justified in state d at round r.
-func (w *c27World) absentWhy(a basics.Address, d *ledgercore.AccountData, r basics.Round) string {
+// absentReasons: every documented condition an entry for this account in the absent list violates in state d at
+// round r (empty: the entry is justified).
+func (w *c27World) absentReasons(a basics.Address, d *ledgercore.AccountData, r basics.Round) []string {
+	var out []string
 	if d.Status != basics.Online {
-		return "not-online"
+		out = append(out, "not-online")
 	}
 	if d.MicroAlgos.Raw == 0 {
-		return "no-algos"
+		out = append(out, "no-algos")
 	}
 	if !d.IncentiveEligible {
-		return "not-eligible"
+		out = append(out, "not-eligible")
 	}
 	lastSeen := d.LastProposed
 	if d.LastHeartbeat > lastSeen {
 		lastSeen = d.LastHeartbeat
 	}
-	if lastSeen == 0 {
-		return "never-seen"
+	switch {
+	case lastSeen == 0:
+		out = append(out, "never-seen")
+	case w.stake0(a) == 0:
+		out = append(out, "no-stake-at-balance-round")
+	default:
+		if first, _ := w.absentFrom(a, lastSeen); first == 0 || uint64(r) < first {
+			out = append(out, "not-absent-yet")
+		}
 	}
-	if w.stake0(a) == 0 {
-		return "no-stake-at-balance-round"
-	}
-	first, _ := w.absentFrom(a, lastSeen)
-	if first == 0 || uint64(r) < first {
-		return "not-absent-yet"
+	return out
+}
+
+// absentWhy: "" if an entry for this account in the absent list is justified in state d at round r.
+func (w *c27World) absentWhy(a basics.Address, d *ledgercore.AccountData, r basics.Round) string {
+	if rs := w.absentReasons(a, d, r); len(rs) > 0 {
+		return rs[0]
 	}
 	return ""
 }
@@ -518,7 +528,7 @@ func c27DrawPopulation(t *rapid.T, crowd int) c27Pop {
 		case "online":
 			d.Status = basics.Online
 			keys()
-			d.IncentiveEligible = rapid.IntRange(0, 9).Draw(t, "eligible") < 9
+			d.IncentiveEligible = rapid.IntRange(0, 9).Draw(t, "eligible") < 8
 		case "suspended": // offline but still holding keys
 			d.Status = basics.Offline
 			keys()
@@ -766,6 +776,7 @@ func c27TestRound(t *rapid.T, vk *vkCtx, w *c27World, hist *[]string) {
 	var expOK, absOK []basics.Address
 	expBad := map[string][]basics.Address{}
 	absBad := map[string][]basics.Address{}
+	absBad1 := map[string][]basics.Address{} // entries violating exactly one condition
 	for _, a := range universe {
 		d := v.get(a)
 		if why := c27ExpiredWhy(d, r); why == "" {
@@ -773,12 +784,27 @@ func c27TestRound(t *rapid.T, vk *vkCtx, w *c27World, hist *[]string) {
 		} else {
 			expBad[why] = append(expBad[why], a)
 		}
-		if why := w.absentWhy(a, d, r); why == "" {
+		if rs := w.absentReasons(a, d, r); len(rs) == 0 {
 			absOK = append(absOK, a)
 		} else {
-			absBad[why] = append(absBad[why], a)
+			absBad[rs[0]] = append(absBad[rs[0]], a)
+			if len(rs) == 1 {
+				absBad1[rs[0]] = append(absBad1[rs[0]], a)
+			}
 		}
 	}
+	// closest to the threshold first
+	sort.SliceStable(absBad1["not-absent-yet"], func(i, j int) bool {
+		l := absBad1["not-absent-yet"]
+		di, dj := v.get(l[i]), v.get(l[j])
+		fi, _ := w.absentFrom(l[i], max(di.LastProposed, di.LastHeartbeat))
+		fj, _ := w.absentFrom(l[j], max(dj.LastProposed, dj.LastHeartbeat))
+		return fi < fj
+	})
+	sort.SliceStable(expBad["not-expired"], func(i, j int) bool {
+		l := expBad["not-expired"]
+		return v.get(l[i]).VoteLastValid < v.get(l[j]).VoteLastValid
+	})
 	if vkEnv("VERIF_C27_DEBUG", "") != "" {
 		why := w.absentWhy(w.voters[0], v.get(w.voters[0]), r)
 		vk.Label("debug-whale0:" + why)
@@ -868,10 +894,16 @@ func c27TestRound(t *rapid.T, vk *vkCtx, w *c27World, hist *[]string) {
 		out = append(out, a)
 		return append(out, l[pos:]...)
 	}
-	pickBad := func(name string, bad map[string][]basics.Address) (basics.Address, string, bool) {
+	pickBad := func(name string, bad, bad1 map[string][]basics.Address) (basics.Address, string, bool) {
+		single := ""
+		if len(bad1) > 0 && rapid.IntRange(0, 9).Draw(t, name+"Single") < 7 {
+			bad, single = bad1, ":only"
+		}
 		var reasons []string
-		for k := range bad {
-			reasons = append(reasons, k)
+		for k, l := range bad {
+			if len(l) > 0 {
+				reasons = append(reasons, k)
+			}
 		}
 		if len(reasons) == 0 {
 			return basics.Address{}, "", false
@@ -879,7 +911,10 @@ func c27TestRound(t *rapid.T, vk *vkCtx, w *c27World, hist *[]string) {
 		sort.Strings(reasons)
 		why := rapid.SampledFrom(reasons).Draw(t, name+"Why")
 		l := bad[why]
-		return l[rapid.IntRange(0, len(l)-1).Draw(t, name+"Who")], why, true
+		if (why == "not-absent-yet" || why == "not-expired") && rapid.IntRange(0, 9).Draw(t, name+"Closest") < 7 {
+			return l[0], why + single, true // the entry closest to its threshold
+		}
+		return l[rapid.IntRange(0, len(l)-1).Draw(t, name+"Who")], why + single, true
 	}
 	justified := func() c27Cand {
 		e := subset("je", expOK, maxE)
@@ -896,7 +931,7 @@ func c27TestRound(t *rapid.T, vk *vkCtx, w *c27World, hist *[]string) {
 		case "empty":
 			c.Expired, c.Absent = nil, nil
 		case "bad-expired":
-			a, why, ok := pickBad("be", expBad)
+			a, why, ok := pickBad("be", expBad, nil)
 			if !ok {
 				c.Mode = "justified"
 				break
@@ -908,7 +943,7 @@ func c27TestRound(t *rapid.T, vk *vkCtx, w *c27World, hist *[]string) {
 			c.Expired = insert("be", c.Expired, a)
 			c.Mode += ":" + why
 		case "bad-absent":
-			a, why, ok := pickBad("ba", absBad)
+			a, why, ok := pickBad("ba", absBad, absBad1)
 			if !ok {
 				c.Mode = "justified"
 				break
